@@ -108,9 +108,45 @@ func checkSetMethod(c *Ctx, p *core.Prog, fn *ssa.Function, typ string) {
 
 func checkHeapAdapter(c *Ctx, p *core.Prog) {
 	pq := core.RootMod + "/stringclassifier/internal/pq"
-	swap := p.Func(pq, "pqHeap.Swap")
-	push := p.Func(pq, "(*pqHeap).Push")
-	if !c.R.Anchor(swap != nil, "pq.pqHeap.Swap") || !c.R.Anchor(push != nil, "pq.(*pqHeap).Push") {
+	// roles: Queue's heap is its only struct-typed field; the heap's slice, index callback and comparator are
+	// its only slice field, its only func(_, int) field and its only func(_, _) bool field
+	qT := p.Named(pq, "Queue")
+	if !c.R.Anchor(qT != nil, "pq.Queue") {
+		return
+	}
+	var heapT *types.Named
+	heapField := ""
+	for i := 0; i < core.StructOf(qT).NumFields(); i++ {
+		if n, ok := core.StructOf(qT).Field(i).Type().(*types.Named); ok {
+			if _, isStruct := n.Underlying().(*types.Struct); isStruct {
+				heapT, heapField = n, core.StructOf(qT).Field(i).Name()
+			}
+		}
+	}
+	if !c.R.Anchor(heapT != nil, "pq.Queue: heap field") {
+		return
+	}
+	itemsField, ok1 := core.UniqueField(heapT, func(t types.Type) bool { _, isSl := t.Underlying().(*types.Slice); return isSl })
+	setIndexField, ok2 := core.UniqueField(heapT, func(t types.Type) bool {
+		sg, isF := t.Underlying().(*types.Signature)
+		return isF && sg.Params().Len() == 2 && sg.Results().Len() == 0
+	})
+	if !c.R.Anchor(ok1 && ok2, "pq heap: one slice field and one index-callback field") {
+		return
+	}
+	lookup := func(recv types.Type, name string) *ssa.Function {
+		sel := p.SSA.MethodSets.MethodSet(recv).Lookup(heapT.Obj().Pkg(), name)
+		if sel == nil {
+			return nil
+		}
+		if m, ok := sel.Obj().(*types.Func); ok {
+			return p.SSA.FuncValue(m)
+		}
+		return nil
+	}
+	swap := lookup(types.NewPointer(heapT), "Swap")
+	push := lookup(types.NewPointer(heapT), "Push")
+	if !c.R.Anchor(swap != nil && len(swap.Blocks) > 0, "pq heap Swap") || !c.R.Anchor(push != nil && len(push.Blocks) > 0, "pq heap Push") {
 		return
 	}
 	// every dynamic call of the setIndex field
@@ -122,7 +158,7 @@ func checkHeapAdapter(c *Ctx, p *core.Prog) {
 				if !ok || call.Call.IsInvoke() || call.Call.StaticCallee() != nil {
 					continue
 				}
-				if strings.HasSuffix(core.AP(call.Call.Value), ".setIndex") {
+				if strings.HasSuffix(core.AP(call.Call.Value), "."+setIndexField) {
 					out = append(out, call)
 				}
 			}
@@ -131,7 +167,7 @@ func checkHeapAdapter(c *Ctx, p *core.Prog) {
 	}
 	guarded := func(call *ssa.Call) bool {
 		for _, f := range core.FactsAtInstr(call) {
-			if cmp, ok := f.AsCmp(); ok && cmp.Op == token.NEQ && strings.HasSuffix(core.AP(cmp.X), ".setIndex") {
+			if cmp, ok := f.AsCmp(); ok && cmp.Op == token.NEQ && strings.HasSuffix(core.AP(cmp.X), "."+setIndexField) {
 				if cst, ok := cmp.Y.(*ssa.Const); ok && cst.Value == nil {
 					return true
 				}
@@ -150,7 +186,7 @@ func checkHeapAdapter(c *Ctx, p *core.Prog) {
 	for _, b := range swap.Blocks {
 		for _, in := range b.Instrs {
 			if st, ok := in.(*ssa.Store); ok {
-				if ia, ok := st.Addr.(*ssa.IndexAddr); ok && strings.HasSuffix(core.AP(ia.X), ".a") {
+				if ia, ok := st.Addr.(*ssa.IndexAddr); ok && strings.HasSuffix(core.AP(ia.X), "."+itemsField) {
 					nStores++
 					lastStore = st
 				}
@@ -170,7 +206,7 @@ func checkHeapAdapter(c *Ctx, p *core.Prog) {
 			continue
 		}
 		ia, isIA := ld.X.(*ssa.IndexAddr)
-		if !isIA || !strings.HasSuffix(core.AP(ia.X), ".a") || ia.Index != k {
+		if !isIA || !strings.HasSuffix(core.AP(ia.X), "."+itemsField) || ia.Index != k {
 			okSwap, why = false, "setIndex(v, k) is called with a value that is not the element now stored in cell k"
 			continue
 		}
@@ -200,7 +236,7 @@ func checkHeapAdapter(c *Ctx, p *core.Prog) {
 			break
 		}
 		ln, isCall := call.Call.Args[1].(*ssa.Call)
-		if !isCall || core.AP(ln) == "" || !strings.HasPrefix(core.AP(ln), "len(") || !strings.HasSuffix(core.AP(ln), ".a)") {
+		if !isCall || core.AP(ln) == "" || !strings.HasPrefix(core.AP(ln), "len(") || !strings.HasSuffix(core.AP(ln), "."+itemsField+")") {
 			okPush, why = false, "the index reported is not len(h.a) taken before the append"
 			break
 		}
@@ -243,7 +279,7 @@ func checkHeapAdapter(c *Ctx, p *core.Prog) {
 			}
 			// heap argument is &pq.heap; remaining arguments are the parameters in order
 			args := call.Common().Args
-			if mi, isMI := args[0].(*ssa.MakeInterface); !isMI || !strings.HasSuffix(core.AP(mi.X), ".heap") {
+			if mi, isMI := args[0].(*ssa.MakeInterface); !isMI || !strings.HasSuffix(core.AP(mi.X), "."+heapField) {
 				ok, why = false, "the heap passed is not the queue's own heap"
 			}
 			for i := 1; i < len(args); i++ {
